@@ -3,9 +3,11 @@
    Claim ladder (DESIGN.md 9): rung 1 = the three structural decoders invert the specification encoders.
    rung 2 = every spelling of a token that the reference writer's style denotes parses to the denoted value
    (proved for fillers, names, hexadecimal strings, integers; literal strings and reals: see notes/C02.md);
-   rung 3 = whole files: C02_loads_table_partial, C02_loads_stream_partial, C02_loads_stream_filtered_partial,
-   C02_loads_table_reflen_partial and the piece-level theorems for object streams and Length references; C02_full below
-   stays a stated Definition (notes/C02.md lists exactly what is missing). *)
+   rung 3 = whole files: C02_full is a THEOREM for every single-section file of the reference writer's style space (both
+   cross-reference formats, object streams, Length by reference, all filter chains and predictors), composed of
+   C02_loads_table_reflen_partial and C02_loads_objstm_partial; files of several sections: the format-independent half
+   (C02_prev_chain, C02_merge_newest_wins, C02_load_chain_frame), the writer-specific half is the Definition
+   C02_loads_multi_partial (notes/C02.md). *)
 From LV Require Import Base.Bytes Base.Sx Model.Obj Model.Writer Model.Parser Model.Xref Spec.XrefSpec
   Model.ObjStm Proofs.LexProofs Proofs.XrefProofs Proofs.XrefTableProofs Proofs.ObjStmProofs
   Spec.RefWriter Proofs.SpellingProofs Proofs.LitStringProofs Proofs.SpellingProofsLit
@@ -1169,6 +1171,49 @@ Qed.
    (b) the class of C02-deep-parens is stated on the RAW parentheses of the spelling (raw_depth_ok), the check's class
        Known_deep_parens on all parentheses of the string: a style that escapes closing parentheses while leaving more than
        100 opening ones raw is in the theorem's class but not in the check's (not drawn by the generator). *)
+(* FILES OF SEVERAL SECTIONS, the part that is format independent (Proofs/LoadsLoopProofs.v).  A chain of cross-reference
+   sections behind the one startxref names -- each named by the Prev entry of the one before it, offsets decreasing (an
+   appended file), none carrying XRefStm -- is read by the reader's Prev loop to the fold of Xref::merge over the sections,
+   newest first (C02_prev_chain), i.e. for every object number the entry of the NEWEST section that has one
+   (C02_merge_newest_wins: a superseded definition is not the one that is loaded, an object listed again keeps the newer
+   entry), and Reader::read on such a file is the three passes over that merged table (C02_load_chain_frame), with the
+   trailer of the newest section minus Prev. *)
+Theorem C02_prev_chain :
+  forall dec can (buf : bytes) (rest : list LoadsLoopProofs.csec) (fuel : nat) (x : xref) (t : dict) (seen : list Z) (hi : N),
+    LoadsLoopProofs.chain_ok dec can buf hi rest -> hi <= blen buf + 1 -> dict_get t K_XRefStm = None ->
+    (forall q, In q seen -> (Z.of_N hi <= q)%Z) -> (length rest <= fuel)%nat ->
+    LoaderExt.prev_loop_x dec can fuel buf x t (LoadsLoopProofs.prev_of rest) seen =
+    SOk (fold_left xref_merge (map (fun s => fst (snd s)) rest) x, t).
+Proof. exact LoadsLoopProofs.prev_loop_chain. Qed.
+
+Theorem C02_merge_newest_wins :
+  forall (l : list xref) (x : xref) (k : N),
+    xget (x_entries (fold_left xref_merge l x)) k = LoadsLoopProofs.first_entry (x :: l) k.
+Proof. exact LoadsLoopProofs.xget_merge_chain. Qed.
+
+Theorem C02_load_chain_frame :
+  forall dec can (buf : bytes) (x : xmap) (objf : N -> N -> obj) (posf : N -> N -> option N) (memf : N -> option objmap)
+         (junk Fb : bytes) (version : bytes) (xs : N) (x0 : xref) (t0 : dict) (rest : list LoadsLoopProofs.csec),
+    pdf_offset (junk ++ Fb) = blen junk -> Fb = buf ->
+    Loader.header Fb = Some version -> get_xref_start Fb = Some xs -> xs <= blen buf ->
+    LoaderExt.xref_and_trailer_x dec can Fb xs = SOk (x0, t0) -> dict_get (dict_swap_remove t0 K_Prev) K_XRefStm = None ->
+    dict_get t0 K_Prev = LoadsLoopProofs.prev_of rest -> LoadsLoopProofs.chain_ok dec can buf xs rest ->
+    x_entries (fold_left xref_merge (map (fun s => fst (snd s)) rest) x0) = x ->
+    dict_has (dict_swap_remove t0 K_Prev) K_Encrypt = false ->
+    xref_max_id (fold_left xref_merge (map (fun s => fst (snd s)) rest) x0) < u32_max ->
+    (forall n off g, In (n, XNormal off g) x -> LoadsLoopProofs.entry_spec dec can buf x objf posf memf n off g) ->
+    LoaderExt.load_ext dec can (junk ++ Fb) =
+    LOk {| d_version := version; d_binary_mark := read_binary_mark Fb; d_trailer := dict_swap_remove t0 K_Prev;
+           d_objects := LoaderExt.zero_pass buf
+                          (LoaderExt.merge_object_streams x (fold_left (LoadsFrameProofs.ins objf) x [])
+                             (flat_map (LoadsLoopProofs.ostm_of memf) x))
+                          (fold_left (LoadsLoopProofs.pstep posf) x []) (flat_map (LoadsLoopProofs.zero_of objf memf) x);
+           d_max_id := xref_max_id (fold_left xref_merge (map (fun s => fst (snd s)) rest) x0) |} (x_type x0).
+Proof. exact LoadsLoopProofs.load_ext_frame_chain. Qed.
+
+(* what is missing for the files of ref_write_multi: that the sections write_parts lays out form such a chain (each decodes
+   by the single-section lemmas restated for section_text with a Prev entry) and that every entry of the merged table names
+   the object the document defines (entry_spec: the layout of write_parts, offsets per part) *)
 Definition C02_loads_multi_partial : Prop :=
   forall (st : fstyle) (parts : list mpart) (a : adoc) (file : bytes),
     ref_write_multi st parts a = Some file ->
@@ -1314,6 +1359,9 @@ Print Assumptions C02_objstm_new_any_filter.
 Print Assumptions C02_example_objstm_pred.
 Print Assumptions C02_load_frame.
 Print Assumptions C02_full.
+Print Assumptions C02_prev_chain.
+Print Assumptions C02_merge_newest_wins.
+Print Assumptions C02_load_chain_frame.
 Print Assumptions C02_full_over_load.
 Print Assumptions C02_example_full.
 Print Assumptions C02_example_loads_table.
